@@ -265,7 +265,55 @@ func c06VarCount(c *Ctx, w *prove.World, name string, u *ssa.Function, enc, dec 
 }
 
 // caseOf: the constant K such that block b executes only when field == K.
+// casesOf: the constants k for which control reaches b through the true edge
+// of a test `field == k` (a switch case with several values is entered from one
+// such test per value). Empty when b is not inside a case body.
+func casesOf(e *codec.Ext, b *ssa.BasicBlock, field string) []string {
+	eqConst := func(p, to *ssa.BasicBlock) string {
+		iff, ok := p.Instrs[len(p.Instrs)-1].(*ssa.If)
+		if !ok || p.Succs[0] != to {
+			return ""
+		}
+		bo, ok := iff.Cond.(*ssa.BinOp)
+		if !ok || bo.Op != token.EQL {
+			return ""
+		}
+		for _, pair := range [][2]ssa.Value{{bo.X, bo.Y}, {bo.Y, bo.X}} {
+			k, isK := pair[1].(*ssa.Const)
+			if !isK || k.Value == nil {
+				continue
+			}
+			if f, _, _ := e.ValueSrc(pair[0]); f == field {
+				return k.Value.ExactString()
+			}
+		}
+		return ""
+	}
+	for x := b; x != nil; x = x.Idom() {
+		if len(x.Preds) == 0 {
+			continue
+		}
+		var ks []string
+		for _, p := range x.Preds {
+			k := eqConst(p, x)
+			if k == "" {
+				ks = nil
+				break
+			}
+			ks = append(ks, k)
+		}
+		if len(ks) > 0 {
+			sort.Strings(ks)
+			return ks
+		}
+	}
+	return nil
+}
+
 func caseOf(e *codec.Ext, b *ssa.BasicBlock, field string) string {
+	if ks := casesOf(e, b, field); len(ks) > 1 {
+		return ""
+	}
 	for x := b; x != nil; x = x.Idom() {
 		d := x.Idom()
 		if d == nil || len(x.Preds) != 1 || x.Preds[0] != d {
@@ -296,6 +344,9 @@ func c06Cases(c *Ctx, w *prove.World, wt wireType, m, u *ssa.Function) {
 	p, r := c.P, c.R
 	pos := p.Rel(u.Pos())
 	em := codec.NewExt(w, m)
+	// formats handled by a case body shared with other formats: the body may branch
+	// on the format again, so the per-format layout is not read off it
+	shared := map[string]string{}
 	// encoder alternatives: edges of the φ returned on success
 	encCase := map[string][]codec.Atom{}
 	for _, ret := range successReturnsEnc(m) {
@@ -305,6 +356,13 @@ func c06Cases(c *Ctx, w *prove.World, wt wireType, m, u *ssa.Function) {
 			return
 		}
 		for i, ed := range phi.Edges {
+			ksE := casesOf(em, phi.Block().Preds[i], "BufferFormat")
+			if len(ksE) > 1 {
+				for _, k := range ksE {
+					shared[k] = "Marshal encodes formats " + strings.Join(ksE, ", ") + " in one shared case body"
+				}
+				continue
+			}
 			k := caseOf(em, phi.Block().Preds[i], "BufferFormat")
 			if k == "" {
 				continue
@@ -327,6 +385,13 @@ func c06Cases(c *Ctx, w *prove.World, wt wireType, m, u *ssa.Function) {
 	for _, a := range eu.Decoded() {
 		k := ""
 		if a.At != nil {
+			if ksD := casesOf(eu, a.At.Block(), "BufferFormat"); len(ksD) > 1 {
+				for _, kk := range ksD {
+					shared[kk] = "Unmarshal decodes formats " + strings.Join(ksD, ", ") + " in one shared case body"
+					decCase[kk] = append(decCase[kk], a)
+				}
+				continue
+			}
 			k = caseOf(eu, a.At.Block(), "BufferFormat")
 		}
 		if k == "" {
@@ -364,6 +429,12 @@ func c06Cases(c *Ctx, w *prove.World, wt wireType, m, u *ssa.Function) {
 	}
 	for _, k := range ks {
 		key := fmt.Sprintf("%s format %s", wt.name, k)
+		if why := shared[k]; why != "" {
+			for _, rule := range []string{"extract", "sym"} {
+				c.NotDecided(rule, key, pos, why+"; the layout of one format cannot be separated from the others' there")
+			}
+			continue
+		}
 		enc := encCase[k]
 		dec := append(append([]codec.Atom{}, common...), decCase[k]...)
 		for i := range dec {
